@@ -143,6 +143,15 @@ def record(lentil, tier, seed, reverse=False):
         call('cosmic_rays', f'{sh}|{en}', gs, cr,
              {'shape': lambda a, sh=sh: tuple(np.shape(a)) == tuple(sh), 'finite': lambda a: np.all(np.isfinite(a)), 'nonneg': lambda a: np.all(a >= 0)},
              sensitive=False)
+    # states of the global generator under which a ray ends within float32 rounding of a grid plane (long thin frames make them reachable)
+    for (gs, sh, pxs, en) in ((1074285, (30000, 4), (5e-6, 5e-6, 3e-6), 700.0), (1848, (4, 30000), (5e-6, 5e-6, 3e-6), 400.0),
+                              (92193, (30000, 16), (5e-6, 5e-6, 5e-5), 200.0), (451165, (30000, 4), (5e-6, 5e-6, 3e-6), 700.0)):
+        def cr2(sh=sh, gs=gs, en=en, pxs=pxs):
+            np.random.seed(gs)
+            return d.cosmic_rays(sh, pxs, en)
+        call('cosmic_rays', f'{sh}|{en}|{pxs}', gs, cr2,
+             {'shape': lambda a, sh=sh: tuple(np.shape(a)) == tuple(sh), 'finite': lambda a: np.all(np.isfinite(a)), 'nonneg': lambda a: np.all(a >= 0)},
+             sensitive=False)
     for (a, k, env) in (reversed(plan) if reverse else plan):
         execute(*a, env=env, **k)
     return ev
@@ -224,6 +233,20 @@ def run(ctx):
     ctx.extra.update({'events_by_callable': kinds, 'outside_model': ['mean / variance / standard deviation clauses (6-sigma numeric leaf)']})
     ctx.sample(events[0], maxn=1)
     ctx.sample(next(e for e in events if e['expect'] == 'reject'), maxn=2)
+    # a frame of counts is the same frame in whatever type it is held (values exactly representable): with the same seed the Gaussian
+    # approximation draws the same noise - its standard deviation is sqrt(signal) in double precision, not in the frame's type
+    dmod = lentil.detector
+    for lvl in (4100.0, 1025.0, 30000.0):
+        for fdt in (np.float16, np.float32, np.int16):
+            fr_ = np.full((40, 50), lvl)
+            if not np.array_equal(fr_.astype(fdt).astype(float), fr_):
+                continue
+            ctx.case(('gaussian-shot-noise-frame-type', lvl, np.dtype(fdt).name))
+            a_ = np.asarray(dmod.shot_noise(fr_.astype(fdt), method='gaussian', seed=11), dtype=float)
+            b_ = np.asarray(dmod.shot_noise(fr_, method='gaussian', seed=11), dtype=float)
+            if not np.array_equal(a_, b_):
+                ctx.violation({'clause': 'Support', 'f': 'shot_noise', 'what': 'noise-depends-on-the-type-the-frame-is-held-in', 'dtype': np.dtype(fdt).name},
+                              {'level': lvl, 'samples_differing': int((a_ != b_).sum())}, case=None)
     ctx.rule = ('sessions: one frame, two different seeds out of {0, 1, 7, 12345, [3, 4]}, each seeded model called seed A, seed B, seed A '
                 'with the global generator re-seeded/advanced between calls; rejection inputs (negative / 1e19, scalar and array); masks of five '
                 'aspect ratios; cosmic rays under 64 [256] enumerated global seeds; distinct by (callable, arguments, seed)')
